@@ -9,55 +9,55 @@ CHECKS = {
  "C01": ("exploration", "bounded-exhaustive input enumeration x all levels x {raw,zlib} on the real one-shot functions; three-party decode oracle (crate, reference decoder, system zlib)",
          "Every element of the stated finite input x level space (all strings over small alphabets, every equality pattern, threshold shapes up to ~200 KB, inputs whose own encoding uses distance codes of every length 1..15, first-block ends at every offset around the encoder's 31 KiB / LZ-buffer cuts) is compressed by the real code and decoded by the crate, an independent bit-level reference decoder and system zlib; inside that space the round trip is decided completely. Right level: the property quantifies over inputs and levels only.",
          "5 C01", "reference decoder (mc/src/refmodel.rs) and system zlib 1.2.13 are correct RFC 1951 decoders; inputs outside the enumerated alphabets/shapes are not covered"),
- "C02": ("model_checking", "explicit exploration of call schedules on the real CompressorOxide (full depth on small inputs, deviation-bounded search around constant policies on 66-200 KB inputs; reset() is one of the actions and starts the next stream on the recycled object; window-wrap, mirror-probe and Full-flush-after-wrap input families), terminal oracle = strict reference decoder + zlib",
+ "C02": ("model_checking", "explicit exploration of call schedules on the real CompressorOxide (full depth on small inputs, deviation-bounded search around constant policies on 66-200 KB inputs; reset() is one of the actions and starts the next stream on the recycled object; window-wrap, mirror-probe, lazy-re-save-at-the-block-cut and Full-flush-after-wrap input families; the largest possible coded block against capacities around the compressor's own buffer sizes), terminal oracle = strict reference decoder + zlib",
          "All schedules over the chunk x capacity x flush alphabet up to the stated depth, and all single deviations (at every / every n-th call index) from 8 background policies incl. tiny-chunk and tiny-buffer ones, are executed on the real compressor through compress, compress_to_output and deflate; counts and status are checked per call and the concatenated output must be one stream decoding to the declared input. " + MC,
          "5 C02", "legal schedules = the first Finish(k) declares the end of the input (DESIGN Appendix A); the compressor exploration is stateless (no dedup); deviation bound 1 on long inputs"),
- "C03": ("exploration", "exhaustive enumeration of a DEFLATE stream grammar (independent bit writer) x 7 entry-point families on the real decoder (incl. decoder objects used before and re-initialised, and None-then-Finish inflate schedules at window fractions/multiples); generator/reference/zlib triangulation before any verdict",
+ "C03": ("exploration", "exhaustive enumeration of a DEFLATE stream grammar (independent bit writer) x 7 entry-point families on the real decoder (incl. decoder objects with one- and two-stream histories - a dynamic stream then each rejected HLIT/HDIST header - re-initialised, and None-then-Finish inflate schedules at window fractions/multiples); generator/reference/zlib triangulation before any verdict",
          "Every stream of the bounded grammar (every length x boundary distance, distance sweeps, chain codes of every maximum length 2..15, alternative code-length encodings, block sequences x 8 alignments, short token sequences, stored edges, all valid zlib wrappers) plus zlib- and crate-produced streams is decoded through every entry point and must give exactly the generator's plaintext and encoded length.",
          "5 C03", "generator, reference decoder and system zlib must agree on each stream first (else exit 2); streams outside the grammar are not covered"),
- "C04": ("fault_enumeration", "exhaustive short-string trie (all byte strings <= 2/3 bytes) and exhaustive single-fault mutation of a valid corpus, each under several chunkings and memory models, judged by the reference decoder in the same memory model",
+ "C04": ("fault_enumeration", "exhaustive short-string trie (all byte strings <= 2/3 bytes) and exhaustive single-fault mutation of a valid corpus, each under several chunkings and memory models (valid long-history sweeps in flat, one-window and two-window ring buffers), judged by the reference decoder in the same memory model",
          "Every byte string up to the stated length and every single bit flip / truncation / byte insertion / deletion of the corpus streams, plus targeted rule violations, is decoded by the real decoder: Done is accepted only if the consumed bytes are Complete for the reference with the same output; proper prefixes of triangulated valid streams must never be rejected as corrupt.",
          "5 C04", "'proper prefix' is asserted only by construction (truncation of a stream all three parties accept, or a trie node with a Complete descendant)"),
  "C05": ("model_checking", "full-depth exploration of call histories on one real DecompressorOxide with flags, slice and position changing between calls (depth 2 over the full 128 flag sets x 14 lengths x positions x budgets product, depth 3 reduced; plus every cut 1..96 of every pool stream as a start state), both build profiles; watchdog for hangs",
          "Every two-call history first-call (menu cuts, and every cut of the first 96 bytes with a reduced second-call menu) x (128 flag sets x 14 slice lengths x <=6 positions x 3 budgets x 6 inputs) and a reduced third call is executed on a clone of the real decoder: no panic, no hang, counts within bounds, unusable geometry = BadParam with the complete-state fingerprint unchanged, Failed and Adler32Mismatch sticky. " + MC,
          "5 C05", "a call that does not return within 20 s is a hang; output buffer contents are never branched on by the decoder (shared scratch buffer)"),
- "C06": ("exploration", "exhaustive enumeration of final-block variants x trailing strings x chunkings x 15 entry points (incl. mz_inflate, mz_uncompress, tinfl_* on guard-paged buffers, decoder objects reused after a complete / abandoned / failed stream, Finish-mode inflate)",
+ "C06": ("exploration", "exhaustive enumeration of final-block variants (incl. 1-3 byte stored blocks served from the bit buffer at every refill phase) x trailing strings x chunkings x 15 entry points (incl. mz_inflate, mz_uncompress, tinfl_* on guard-paged buffers, decoder objects reused after a complete / abandoned / failed stream, Finish-mode inflate)",
          "For every stream whose final block ends at each bit offset, every trailing string of length 0..16,17,32,64 in three fills, one-call / bytewise / every cut around the end, the total consumed count must equal the generator's exact encoded length through every entry point, and a call after the end must consume nothing.",
          "5 C06", "exact encoded length comes from the independent generator (triangulated)"),
- "C07": ("model_checking", "explicit-state exploration of (input reveal, output budget) schedules on the real DecompressorOxide: unbounded-depth DFS with complete-state fingerprint dedup on short streams, deviation-bounded search with the full 10x9 alphabet elsewhere, all input compositions, all constant budgets",
+ "C07": ("model_checking", "explicit-state exploration of (input reveal, output budget) schedules on the real DecompressorOxide: unbounded-depth DFS with complete-state fingerprint dedup on short streams, deviation-bounded search with the full 10x9 alphabet elsewhere, all input compositions, all constant budgets; the multi-slice entry point under iterators with exact, absent and zero-lower-bound size hints x every split",
          "Within the same buffer mode every explored schedule must end with the same (output, status, consumed) as the one-call run and deliver a prefix of it at every step, for valid and invalid streams, flat and ring modes. " + MC,
          "5 C07", "dedup soundness rests on the fingerprint covering every field (hook destructures exhaustively) and on 128-bit collision freedom"),
  "C08": ("model_checking", "the C07 exploration with write-region and status-truthfulness monitors (snapshot comparison + second run with a different canary pattern), plus exhaustive limit sweep for the *_with_limit functions",
          "At every explored call nothing outside [out_pos, out_pos+written) changes, written <= min(budget, room), HasMoreOutput only with the region full, NeedsMoreInput only with all input consumed; limits {0,1,n-1,n,n+1,2n,MAX} for every corpus stream. " + MC,
          "5 C08", "in ring mode bytes ahead of the write position are old history and cannot be overwritten by a canary: snapshot comparison only"),
- "C09": ("exploration", "exhaustive enumeration: every canonical zlib configuration x inputs x first-call flush mode (producer), all 65536 headers x 18 geometries x 4 chunkings, every single-bit/byte trailer corruption x chunkings (decoder)",
+ "C09": ("exploration", "exhaustive enumeration: every canonical zlib configuration (with_params, C-API flags, hand-assembled flags) x inputs x first-call flush mode (producer), all 65536 headers x 18 geometries x 4 chunkings, every single-bit/byte trailer corruption x chunkings (decoder)",
          "Producer: header rules, trailer = Adler-32 by definition, exactly one well-formed stream. Decoder: RFC-invalid header never Done, valid header Done in flat mode and every ring >= declared window; every corrupted trailer/body gives Adler32Mismatch / MZ Data error under every chunking, Done with the ignore flag.",
          "5 C09", "reference Adler-32 is the byte-at-a-time definition (cross-checked against zlib)"),
- "C10": ("exploration", "bounded-exhaustive enumeration of inputs x canonical (flags, window) configurations on the real compressor; token-level rules read off an independent reference decoder's trace; system zlib as second decoder",
+ "C10": ("exploration", "bounded-exhaustive enumeration of inputs (incl. sweeps around every block-cut threshold of the pinned encoder: 31 KiB, code buffer full x flag-bit phase, window edge) x canonical (flags, window) configurations on the real compressor; token-level rules read off an independent reference decoder's trace; system zlib as second decoder",
          "Every (input, configuration) in the finite space is compressed by the real code; the strict-producer reference decoder and zlib must accept and return the input, the trace must obey the level/strategy token rules, and y||y must compress below 75%.",
          "5 C10", "token rules for Fixed/RLE/Filtered asserted only where with_params does not override the strategy (window_bits 15)"),
- "C11": ("exploration", "exhaustive sweep window_bits x level x strategy x set_level variant x far-repeat inputs x {one-shot, Sync-cut} schedules; reference trace max distance, crate ring decoder of the declared size, system zlib with windowBits = CINFO+8",
+ "C11": ("exploration", "exhaustive sweep window_bits x level x strategy x setter variant (level, format-and-level same format / checksum-ignoring) x far-repeat inputs x {one-shot, Sync-cut} schedules; reference trace max distance, crate ring decoder of the declared size, system zlib with windowBits = CINFO+8",
          "For every cell the header must not declare more than 2^max(w,8), no match may reach beyond the declared window, and decoders that allocate only the declared window (crate ring, zlib fed 64-byte output chunks) must return the input.",
          "5 C11", "inputs place the repeat at window-1..window+3 and a menu of other distances; other input shapes are not covered"),
- "C12": ("model_checking", "the C02 schedule exploration with flush-point monitors (prefix decodability by the reference decoder at every qualifying flush return, marker check, Full-flush history cut and standalone remainder) plus an exhaustive triple-flush-sequence family",
+ "C12": ("model_checking", "the C02 schedule exploration with flush-point monitors (prefix decodability by the reference decoder at every qualifying flush return, marker check, Full-flush history cut and standalone remainder) plus an exhaustive triple-flush-sequence family and whole-input flushing calls on the block-cut edge inputs",
          "At every explored Sync/Full/Partial flush return that meets the property's precondition the bytes emitted so far decode to exactly the input so far; Sync/Full end with 00 00 ff ff; after a Full flush no match reaches before it and the remainder decodes alone; NoSync..Sync equals Sync. " + MC,
          "5 C12", "same as C02"),
- "C13": ("model_checking", "full-depth exploration of the 64-82-action alphabet (chunk x room incl. exact fit x flush, plus reset(format)/MinReset) on the real InflateState, deeper with complete-state dedup; protocol reference model judges every transition; usual-loop liveness from every cut state",
+ "C13": ("model_checking", "full-depth exploration of the 64-82-action alphabet (chunk x room incl. exact fit x flush, plus reset(format)/MinReset) on the real InflateState (new, and with two-stream histories ending in a rejected header), deeper with complete-state dedup; protocol reference model judges every transition; usual-loop liveness from every cut state",
          "Every action sequence up to the stated depth on valid, truncated, corrupt and trailing-data streams in three formats is executed on the real wrapper; counts, prefix, Full=>Stream, sticky Data, non-Finish after Finish, StreamEnd exactness/stability, progress, recoverable starvation, Finish on truncated = Buf are checked per transition and the None-loop must terminate with the plaintext from every reachable legal state. " + MC,
          "5 C13", "protocol wording calibrated in DESIGN Appendix A (first-call Finish poisons by design; Buf may deliver buffered bytes)"),
- "C14": ("model_checking", "full-depth exploration of the 61-action alphabet (chunk x room x flush, plus reset()) on the real CompressorOxide through deflate(); protocol model per transition; Finish-loop termination from every cut state",
+ "C14": ("model_checking", "full-depth exploration of the 61-action alphabet (chunk x room x flush, plus reset()) on the real CompressorOxide through deflate(); protocol model per transition; Finish-loop termination from every cut state and with buffers sized to the compressor's own block ends +-3",
          "Every action sequence to the stated depth is executed; counts, empty-output refusal without state change (fingerprint), progress, Finish returns only at StreamEnd or with a full buffer, StreamEnd only after Finish with a complete decodable stream, stability after the end, non-Finish after Finish = error without side effects. " + MC,
          "5 C14", "stateless exploration (no dedup); inputs up to 600 bytes at full depth, one 70 KB input at depth 2"),
  "C15": ("exploration", "exhaustive sweep n (0..300, every threshold +-1, multiples of 31744/65536, up to 1-4 MiB) x 13 content classes x levels -1..10 x 5 strategies, plus a period sweep (1041 periods around the encoder's block cut, trigram-free 9-bit literals, lazy levels, MZ_FIXED), through mz_deflate(MZ_FINISH) with avail_out = bound, with_params one-shot and mz_compress2",
          "For every cell the produced length must not exceed mz_deflateBound(n) and mz_compress2 with a compressBound destination must succeed; slack per content/strategy is recorded.",
          "5 C15", "content classes are adversarial by construction (9-bit literals, sparse matches, planted repeats) but finite"),
- "C16": ("exploration", "exhaustive enumeration of buffers x start values x split points against byte/bit-at-a-time definitions, in both scalar and simd builds (and a block-boundary build for the decoder's running checksum at BlockBoundary returns); running checksums monitored at every call boundary of the decoder schedules, mz_stream schedules and the C02 compressor exploration",
+ "C16": ("exploration", "exhaustive enumeration of buffers x start values x split points against byte/bit-at-a-time definitions, in both scalar and simd builds (and a block-boundary build for the decoder's running checksum at BlockBoundary returns); running checksums monitored at every call boundary of the decoder schedules, mz_stream schedules (incl. rejected calls, End, Reset followed by calls that consume nothing) and the C02 compressor exploration",
          "Adler-32/CRC-32 equal their definitions for every length 0..300 and the block-size neighbourhoods, every single split (pairs for short buffers), four extreme start values, all 1-2 byte buffers, through Rust and C entry points; running checksums equal the checksum of the data so far at every explored call boundary.",
          "5 C16", "mz_stream.adler after mz_inflate is the checksum of the bytes decoded so far (delivered + at most one window pending)"),
- "C17": ("model_checking", "every (avail_in, avail_out, flush) schedule up to the stated depth replayed on mz_deflate/mz_inflate and in lock-step on the Rust API; guard-paged buffers (PROT_NONE at the end and at the start) with a fault handler; mz_deflateReset as a schedule element; callback-driven tdefl functions and tdefl_init re-initialisation in all mode combinations; pairwise one-shot functions; parameter sweeps; 47 misuse cases in child processes",
+ "C17": ("model_checking", "every (avail_in, avail_out, flush) schedule up to the stated depth replayed on mz_deflate/mz_inflate and in lock-step on the Rust API; guard-paged buffers (PROT_NONE at the end and at the start) with a fault handler; mz_deflateReset as a schedule element; callback-driven tdefl functions and tdefl_init re-initialisation in all mode combinations; pairwise one-shot functions; tinfl_decompress with wrapping windows of every size class; parameter sweeps; 47 misuse cases in child processes",
          "Per call identical code/counts/bytes to the Rust call, pointers and totals move together, nothing outside the declared ranges is touched (fault => violation), misuse returns an error code without crashing. " + MC,
          "5 C17", "reads outside the input range are seen only when they cross into the adjacent PROT_NONE page"),
- "C18": ("model_checking", "bounded histories (abandoned, pending output, each flush, empty-input flushes, finished, misuse-error, corrupt, every targeted format violation, a dynamic header cut at every byte, truncated+Finish) x reset variant x probes, per-call observations compared with a fresh object; every compressor history run twice (determinism)",
+ "C18": ("model_checking", "bounded histories (abandoned, pending output, each flush, empty-input flushes, finished, misuse-error, corrupt, every targeted format violation, a dynamic header cut at every byte, truncated+Finish) x reset variant x probes, per-call observations (rooms of 1, 700, 33 000 and 100 000 bytes) compared with a fresh object; every compressor history run twice (determinism)",
          "After each history and reset variant (CompressorOxide::reset, mz_deflateReset, MinReset/ZeroReset/FullReset/reset, DecompressorOxide::init) every probe under 2-3 schedules must behave exactly as on a freshly built object. " + MC,
          "5 C18", "probes are a fixed family (incl. a before-start reference, a dump of the whole preceding window, dynamic blocks with few code-length-code lengths, and 50-70 KB inputs recycling dictionary and hash chains)"),
  "C19": ("model_checking", "snapshot at every inter-call state of scheduled decodes: clone and rmp-serde round trip (fingerprint equality + three continuations each); block-boundary flavour: every block-kind sequence x 8 alignments x every cut plus every targeted format violation after valid first blocks (rebuilt = stop-and-continue = uninterrupted), record checks and rebuilt decoder",
